@@ -935,15 +935,22 @@ func TestVerif_C33(t *testing.T) {
 		// covers everything the quick tier covers
 		r.Note("B(quick) took %.1fs", time.Since(t0).Seconds())
 		t0 = time.Now()
-		c33PartD(e, 3, 3)
-		r.Note("D(len 3) took %.1fs", time.Since(t0).Seconds())
-		t0 = time.Now()
 		c33PartC(e, true)
 		r.Note("C(thorough caps) took %.1fs", time.Since(t0).Seconds())
 		t0 = time.Now()
 		if !r.OutOfTime() {
 			c33PartB(e, true)
 		}
+		r.Note("B(full) took %.1fs", time.Since(t0).Seconds())
+		// all 3-byte bytecodes (2^24 x 15 versions, ~4% of them accepted and round-tripped) do not fit
+		// the thorough budget on 16 cores; they come last and use whatever budget is left (versions
+		// interleaved, so a capped run has touched every version).
+		t0 = time.Now()
+		if !r.OutOfTime() {
+			c33PartD(e, 3, 3)
+		}
+		r.Note("D(len 3) took %.1fs", time.Since(t0).Seconds())
+		t0 = time.Now()
 	}
 	r.Note("B took %.1fs", time.Since(t0).Seconds())
 	{
